@@ -16,20 +16,10 @@ class Topology:
     """
     if link.is_circular():
       return False
-    if not link.get("from_segment").dovetails_of_end(\
-             gfapy.invert(link.from_end.end_type)):
-      return True
-    if not link.to_segment.dovetails_of_end(gfapy.invert(link.to_end.end_type)):
-      return True
-    c = {}
-    for et in ["from", "to"]:
-      c[et] = set()
-      visited = set()
-      segend = link.get("from_segment") if et == "from" else link.to_segment
-      visited.add(segend.name)
-      visited.add(link.other_end(segend).name)
-      self.__traverse_component(segend, c[et], visited)
-    return c["from"] != c["to"]
+    from_segment = link.from_segment
+    to_segment = link.to_segment
+    reached = self.__reachable_segments(from_segment, without_link = link)
+    return id(to_segment) not in reached
 
   def is_cut_segment(self, segment):
     """Does the removal of a segment split a connected component?
@@ -47,18 +37,34 @@ class Topology:
       segment = self.try_get_segment(segment)
     if segment._connectivity() in [(0,0),(0,1),(1,0)]:
       return False
-    start_points = set()
-    for et in ["L", "R"]:
-      for l in segment.dovetails_of_end(et):
-        start_points.add(l.other_end(\
-            gfapy.SegmentEnd(segment.name, et)).inverted())
-    cc = []
-    for start_point in start_points:
-      cc.append(set())
-      visited = set()
-      visited.add(segment.name)
-      self.__traverse_component(start_point, cc[-1], visited)
-    return any(c != cc[0] for c in cc)
+    neighbours = []
+    for l in segment.dovetails:
+      for s in [l.from_segment, l.to_segment]:
+        if s is not segment and not any(s is n for n in neighbours):
+          neighbours.append(s)
+    if len(neighbours) < 2:
+      return False
+    reached = self.__reachable_segments(neighbours[0],
+                                        without_segment = segment)
+    return any(id(n) not in reached for n in neighbours)
+
+  def __reachable_segments(self, start, without_link = None,
+                           without_segment = None):
+    """The id()s of the segments which can be reached from a segment
+    over dovetail overlaps (not using a given link or segment)."""
+    reached = set([id(start)])
+    stack = [start]
+    while stack:
+      s = stack.pop()
+      for l in s.dovetails:
+        if l is without_link:
+          continue
+        for o in [l.from_segment, l.to_segment]:
+          if o is without_segment or id(o) in reached:
+            continue
+          reached.add(id(o))
+          stack.append(o)
+    return reached
 
   def segment_connected_component(self, segment, visited = None):
     """Compute the connected component to which a segment belong.
